@@ -440,3 +440,39 @@ func TestC19Hooks(t *testing.T) {
 		vlib.Sample(c)
 	})
 }
+
+// TestC19TimingGrid: exhaustive small scope — every pattern of 1..4 notifications whose gaps come from the grid
+// {0, 1 ns, limit-1 ns, limit, limit+1 ns, 2*limit} (259 patterns), against the real caller under the virtual clock.
+func TestC19TimingGrid(t *testing.T) {
+	gaps := []time.Duration{0, time.Nanosecond, hooksLimit - time.Nanosecond, hooksLimit, hooksLimit + time.Nanosecond, 2 * hooksLimit}
+	entries := []hookEntry{{Name: "h0-exec", Kind: "exec"}, {Name: ".h1-hidden", Kind: "hidden"}, {Name: "h2-symlink-exec", Kind: "symlink-exec"}}
+	n := 0
+	var rec func(prefix []time.Duration)
+	rec = func(prefix []time.Duration) {
+		c := c19Case{Entries: entries}
+		at := time.Duration(0)
+		for i, g := range prefix {
+			if i > 0 {
+				at += g
+			}
+			c.Events = append(c.Events, c19Event{At: at, Kind: "notify"})
+		}
+		n++
+		vlib.Eval()
+		if msg := bubble(t, func() string { return runC19(c) }); msg != "" {
+			js, _ := json.Marshal(c)
+			vlib.Violation(msg, "TestC19TimingGrid", c)
+			t.Fatalf("%s\npattern (gaps): %v\ncase: %s", msg, prefix, js)
+		}
+		vlib.NT("c19grid", fmt.Sprint(prefix))
+		if len(prefix) < 4 {
+			for _, g := range gaps {
+				rec(append(append([]time.Duration{}, prefix...), g))
+			}
+		}
+	}
+	rec([]time.Duration{0})
+	vlib.SetExtra("timing_grid_patterns_enumerated", int64(n))
+	vlib.Class("timing-grid-exhaustive")
+	vlib.Sample(map[string]any{"kind": "exhaustive timing grid", "gaps": fmt.Sprint(gaps), "max_notifications": 4, "patterns": n})
+}
